@@ -161,7 +161,7 @@ func genC03Req(t *rapid.T, cfg c03Case) c03Case {
 		c.PortOff = 1
 	}
 	c.What = rapid.SampledFrom([]string{"exact", "exact", "exact", "port+1", "port-1", "port0", "embedded-nul", "double-nul", "no-nul", "prefix", "suffix", "superstring",
-		"other-user", "bracketed", "ipv6-variant", "surrogates", "odd-length", "over-long-size", "case", "empty"}).Draw(t, "what")
+		"other-user", "bracketed", "ipv6-variant", "surrogates", "high-byte-lookalike", "high-byte-lookalike", "odd-length", "over-long-size", "case", "empty"}).Draw(t, "what")
 	name := u16(host, true)
 	switch c.What {
 	case "port+1":
@@ -186,6 +186,18 @@ func genC03Req(t *rapid.T, cfg c03Case) c03Case {
 		}
 	case "superstring":
 		name = u16(host+rapid.SampledFrom([]string{"1", ".", ".evil", " "}).Draw(t, "extra"), true)
+	case "high-byte-lookalike":
+		// the allowed name with some code units replaced by units that have the same low byte and a non-zero high byte:
+		// a different name, which no policy lists
+		name = u16(host, true)
+		all := rapid.Bool().Draw(t, "allUnits")
+		hi := rapid.SampledFrom([]uint16{0x0100, 0x0400, 0x2000, 0xd800, 0xff00}).Draw(t, "highByte")
+		k := rapid.IntRange(0, len(name)-1).Draw(t, "unitAt")
+		for i := range name {
+			if (all || i == k) && (name[i] != 0 || i == len(name)-1 && rapid.Bool().Draw(t, "alsoTerminator")) {
+				name[i] |= hi
+			}
+		}
 	case "other-user":
 		other := rapid.SampledFrom([]string{"1", "2", "4", "7", "9"}).Draw(t, "otherUser")
 		name = u16("127.0.0."+other, true)
